@@ -712,6 +712,32 @@ fn main() {
     ev.set_extra("regression_sources", json!(n_regress));
     ev.set_extra("corpus_accepted", json!(accepted));
 
+    // probes for KNOWN findings (each with its own signature, so that the `known` line in
+    // known_findings.jsonl silences exactly this program and nothing else of its kind): the program
+    // is not part of the corpus or the generator's language until the repair has landed; once it no
+    // longer compiles, or certifies, the probe is silent and the line can become `fixed`
+    for (name, text) in [
+        ("tail-call-in-tuple-field", "f = #'int { | =0 => 0 | [1, [~, 1] __integer_subtract__ ^] },\n3 f"),
+    ] {
+        match compile_source(text, &HashMap::new(), &cx.b) {
+            Err(_) => ev.hit(&format!("probe:{name}:no-longer-compiles")),
+            Ok(unit) => {
+                let bc = unit.program.to_bytecode(Some(unit.entry));
+                let t = tables_of(&bc);
+                let c = certify(&mut cx.model, &t);
+                match &c.reject {
+                    None => ev.hit(&format!("probe:{name}:certified")),
+                    Some((f, pc, why)) => {
+                        let kind = why.split(|ch: char| ch == ' ' || ch == ':').next().unwrap_or("rejected").to_string();
+                        ev.violation(&format!("probe={name} kind={kind}"),
+                            &format!("checkAnn rejects function {f} at pc {pc} ({why}) of the known-finding probe {name}"),
+                            json!({"broken": "certification by the verified checker", "probe": name, "source": text, "function": f, "pc": pc, "reason": why}), false);
+                    }
+                }
+            }
+        }
+    }
+
     // generated programs
     let n_gen = opts.tier.pick(1500u64, 40000u64);
     let mut gen_accepted = 0u64;
